@@ -642,6 +642,7 @@ class Interp:
         if isinstance(v, dict):
             return all(self._const_leaves(k) and self._const_leaves(x) for k, x in v.items())
         return (v is None or isinstance(v, (str, int, float, bool, _re.Pattern)) or self._enum_member(v)
+                or isinstance(v, _OpRef)
                 or (isinstance(v, Residual) and self.idx is not None and self.idx.has_cls(v.text)))   # a reference to a class of the package
 
     def lookup(self, key):
@@ -746,6 +747,8 @@ class Interp:
             ok, v = self.lookup(k)
             if ok:
                 return v
+            if base.text == "operator" and hasattr(operator, e.attr) and "operator" not in frame:
+                return _OpRef(self, e.attr)
             if base.text == "string" and e.attr in ("ascii_letters", "ascii_lowercase", "ascii_uppercase", "digits", "hexdigits", "octdigits", "punctuation", "whitespace", "printable"):
                 import string as _string
                 return getattr(_string, e.attr)  # constants of the stdlib `string` module
@@ -1076,6 +1079,14 @@ class Interp:
                 ckey = f"{recv.text}.{meth}"
             elif isinstance(recv, Obj):
                 ckey = f"{recv.name}.{meth}"
+            elif isinstance(recv, _Super):
+                # the next definition after the defining class in its MRO, on the same object
+                a = {k.arg: self.eval(k.value, frame) for k in e.keywords if k.arg}
+                a["__pos__"] = self._pos_args(e, frame)
+                for c in self.idx.mro(recv.cls)[1:]:
+                    if meth in c.methods:
+                        return self.call_function(c.methods[meth], a, recv.selfkey)
+                return None   # object's own (e.g. object.__init__)
             elif isinstance(recv, _Bound):
                 raise Undecidable(f"call on bound builtin {full}")
             else:
@@ -1111,6 +1122,8 @@ class Interp:
             if f.id in frame and isinstance(frame[f.id], Residual):
                 ckey = frame[f.id].text
             if f.id in frame and isinstance(frame[f.id], _Closure):
+                return frame[f.id](*self._pos_args(e, frame))
+            if f.id in frame and isinstance(frame[f.id], _OpRef):
                 return frame[f.id](*self._pos_args(e, frame))
             if f.id in frame and isinstance(frame[f.id], _MethodRef):
                 return frame[f.id](*self._pos_args(e, frame), **{k.arg: self.eval(k.value, frame) for k in e.keywords if k.arg})
@@ -1300,6 +1313,8 @@ class Interp:
             start = args[0] if args else 0
             step = args[1] if len(args) > 1 else 1
             return [start + i * step for i in range(self.max_loop + 1)]
+        if recv is None and meth == "super" and not args and meth not in frame and self._fi_stack and self._fi_stack[-1].cls and self.idx is not None:
+            return _Super(self._fi_stack[-1].cls, frame.get("__self__", "self"))
         if recv is None and meth == "type" and len(args) == 1 and not isinstance(args[0], (Residual, Obj)):
             return Residual(type(args[0]).__name__)
         # getattr(x, "name") on a symbolic object with a constant name is the attribute x.name
@@ -1638,6 +1653,46 @@ def _nt_fields(ci):
             if st.value is not None:
                 defaults[st.target.id] = st.value
     return names, defaults
+
+
+class _Super:
+    """the value of `super()` inside a method of class cls running on the object selfkey"""
+
+    def __init__(self, cls, selfkey):
+        self.cls, self.selfkey = cls, selfkey
+
+    def __deepcopy__(self, memo):
+        return self
+
+
+class _OpRef:
+    """a function of the stdlib `operator` module used as a value (e.g. in a dispatch table): calling it is the operator itself"""
+    _CMP = {"lt": ast.Lt, "le": ast.LtE, "gt": ast.Gt, "ge": ast.GtE, "eq": ast.Eq, "ne": ast.NotEq, "is_": ast.Is, "is_not": ast.IsNot}
+
+    def __init__(self, interp, name):
+        self.interp, self.name = interp, name
+
+    def __call__(self, *args):
+        if self.name in self._CMP and len(args) == 2:
+            return self.interp.compare(self._CMP[self.name], args[0], args[1])
+        if any(isinstance(a, (Residual, Obj)) for a in args):
+            return Residual(f"operator.{self.name}({', '.join(txt(a) for a in args)})")
+        try:
+            return getattr(operator, self.name)(*args)
+        except Exception as ex:  # pylint: disable=W0718
+            raise Raised(type(ex).__name__)
+
+    def __deepcopy__(self, memo):
+        return self
+
+    def __eq__(self, o):
+        return isinstance(o, _OpRef) and o.name == self.name
+
+    def __hash__(self):
+        return hash(("op", self.name))
+
+    def __repr__(self):
+        return f"operator.{self.name}"
 
 
 class _Bound:
